@@ -368,7 +368,58 @@ fn exhaustive_read(which: usize, rep: &mut Report) {
             run_read_case(&ReadCase { tape: long.clone(), boundaries: vec![], faults: vec![(100, ReadFault::Interrupted, times / 3), (400, ReadFault::Interrupted, times / 3), (522, ReadFault::Interrupted, times / 3), (523 + 10, ReadFault::Interrupted, times)], reads: 6, label: "thousands_of_interrupts_in_one_line" }, rep);
         }
     }
+    // exactly k undecodable lines of one kind in a row, then two good frames: each read is judged as ever
+    if which == 0 {
+        let good = refs::enc_crlf(0x0003, 0x04, &[0x07]);
+        let bad_kinds: [Vec<u8>; 5] = [
+            [refs::enc(0x0003, 0x04, &[0x07]), b"\n".to_vec()].concat(), // bare LF
+            b":0100030407F2\r\n".to_vec(),                               // wrong checksum
+            b"garbage\r\n".to_vec(),
+            b"\r\n".to_vec(),
+            b":0200030407F0\r\n".to_vec(), // wrong length
+        ];
+        for k in [1usize, 2, 63, 64, 65, 255, 256, 257] {
+            for bad in &bad_kinds {
+                let mut tape = vec![];
+                for _ in 0..k {
+                    tape.extend_from_slice(bad);
+                }
+                tape.extend_from_slice(&good);
+                tape.extend_from_slice(&good);
+                tape.push(b':');
+                run_read_case(&ReadCase { tape, boundaries: vec![], faults: vec![], reads: k + 3, label: "k_undecodable_lines_then_good_ones" }, rep);
+            }
+        }
+        // ... and exactly k reads that fail with a hard error at the same place (the error is not persistent: the k+1-th
+        // read goes through)
+        for k in [1usize, 2, 63, 64, 65, 255, 256, 257] {
+            let tape = [good.clone(), good.clone(), b":".to_vec()].concat();
+            run_read_case_after_failures(&tape, k, rep);
+        }
+    }
     rep.count("exhaustive_read_sets_done");
+}
+
+/// k reads in a row fail with a hard error before a single byte is delivered; then the stream works: the next two reads
+/// return the two frames. (`run_read_case` stops at the first hard error, as a caller would; this is the caller who
+/// tries again.)
+fn run_read_case_after_failures(tape: &[u8], k: usize, rep: &mut Report) {
+    rep.case(Some(fnv(format!("after-{}-failures", k).as_bytes())));
+    rep.count("read_cases/k_failing_reads_then_good_ones");
+    let mut reader = FragReader::new(tape.to_vec(), vec![], vec![(0, ReadFault::Fail(io::ErrorKind::TimedOut), k)]);
+    for call in 0..k + 2 {
+        let r = catch(|| Frame::read(&mut reader));
+        let got = match r {
+            Ok(res) => summarize(&res),
+            Err(p) => format!("panic {} at {}", p.msg, short_loc(&p.loc)),
+        };
+        let want = if call < k { "Io(TimedOut)".to_string() } else { "Ok(0003:04:07)".to_string() };
+        let want_pos = if call < k { 0 } else { (call - k + 1) * 15 };
+        if got != want || reader.pos != want_pos {
+            rep.violation(MON_R, "wrong_result", &format!("after-{}-failures-{}", k, call), format!("read #{} on a stream whose first {} reads fail with TimedOut before delivering anything: returned {} with the stream at {}, expected {} at {}", call, k, got, reader.pos, want, want_pos), J::obj(vec![("workload", J::s("k failing reads")), ("k", J::us(k)), ("call", J::us(call)), ("observed", J::s(got.clone()))]));
+            return;
+        }
+    }
 }
 
 // ------------------------------------------------------------------------------------------------
@@ -658,6 +709,7 @@ pub fn run(ctx: &Ctx) -> Outcome {
         floor("compositions of a 14-byte stream all enumerated (8192)", report.get("compositions_enumerated") >= 8192, report.get("compositions_enumerated")),
         floor("exhaustive write set", report.get("exhaustive_write_sets_done") == 1, report.get("exhaustive_write_sets_done")),
         floor("the same frame on consecutive lines; wrong terminators made of CR / blank / tab", report.get("lines/same_frame_as_previous_line") > 1000 && report.get("lines/doubled_cr") > 100 && report.get("lines/blank_near_terminator") > 100, report.get("lines/same_frame_as_previous_line")),
+        floor("good frames after exactly k undecodable lines / k failing reads (k = 1..257)", report.get("read_cases/k_undecodable_lines_then_good_ones") == 40 && report.get("read_cases/k_failing_reads_then_good_ones") == 8, report.get("read_cases/k_undecodable_lines_then_good_ones")),
         floor("300 to 70 000 interrupted reads during one line", report.get("read_cases/thousands_of_interrupts_in_one_line") == 12, report.get("read_cases/thousands_of_interrupts_in_one_line")),
         floor("maximum-length lines read through 1..6 interrupted reads", report.get("read_cases/maximum_length_frames_interrupted") == 84, report.get("read_cases/maximum_length_frames_interrupted")),
         floor("70 000 lines through one reader and 70 000 frames into one sink", report.get("marathon_lines_read") == 70_000 && report.get("marathon_frames_written") == 70_000, format!("{} / {}", report.get("marathon_lines_read"), report.get("marathon_frames_written"))),
